@@ -1059,3 +1059,101 @@ def parse_model(req, ml):      # noqa: F811
                     out.append((dec(n), dec(a), dec(d)))
         return ('ok', tuple(out))
     return _parse0(req, ml)
+
+
+# ----------------------------------------------------------------------------- read_sig from the TEXT vs Model/ReadSigText.readSigText
+_BASE = 1114112
+
+
+def enc_text(t):
+    n = 0
+    for c in t:
+        n = n * _BASE + ord(c) + 1
+    return n
+
+
+def dec_text(n):
+    out = []
+    while n:
+        n, r = divmod(n, _BASE)
+        out.append(chr(r - 1))
+    return ''.join(reversed(out))
+
+
+def _outside_piece_model(text):
+    """the texts the piece-level model does not cover (Model/ReadSigText.toPiece answers none): three or more stars, an annotation
+    or default on `/` or a bare `*`, `<…>` around `/` or a star argument"""
+    from sigtools import support
+    for part in text.split(','):
+        if not part:
+            continue
+        m = support.re_paramname.match(part)
+        if m is None:
+            return True
+        arg, ann, dflt = m.groups()
+        ch = support.re_posoarg.match(arg)
+        if ch:
+            inner = ch.group(1)
+            if inner == '/' or inner.startswith('*'):
+                return True
+            continue
+        if arg == '/':
+            if ann is not None or dflt is not None:
+                return True
+            continue
+        name = arg.lstrip('*')
+        k = len(arg) - len(name)
+        if k and not name and (ann is not None or dflt is not None):
+            return True
+        if name and k >= 3:
+            return True
+    return False
+
+
+def real_readsigtext(req):
+    from sigtools import support
+    _, ua, upo, ukw, text = req
+    if _outside_piece_model(text):
+        return ('outside',)
+    try:
+        names, ret, anns, poso, kwo, params, flag = support.read_sig(
+            text, use_modifiers_annotate=bool(ua), use_modifiers_posoargs=bool(upo), use_modifiers_kwoargs=bool(ukw))
+    except Exception as e:  # noqa
+        return ('err', type(e).__name__)
+    return ('ok', tuple(names), tuple(anns.items()), tuple(poso), tuple(kwo), params)
+
+
+OPS['readsigtext'] = real_readsigtext
+
+_line1 = line
+_parse1 = parse_model
+
+
+def line(req):        # noqa: F811
+    if req[0] == 'readsigtext':
+        return 'readsigtext %d %d %d %s' % (req[1], req[2], req[3], _text_line(req[4]))
+    return _line1(req)
+
+
+def parse_model(req, ml):      # noqa: F811
+    if req[0] == 'readsigtext':
+        toks = ml.split()
+        if toks[0] == 'outside':
+            return ('outside',)
+        ids = lambda s: () if s == '_' else tuple(dec_text(int(x)) for x in s.split('.'))  # noqa
+        anns = () if toks[2] == '_' else tuple(tuple(dec_text(int(y)) for y in x.split('=')) for x in toks[2].split('.'))
+        items = []
+        if toks[5] != '_':
+            for it in toks[5].split(','):
+                if it in ('/', '*'):
+                    items.append(it)
+                else:
+                    s, n, a, d = it.split(':')
+                    t = '*' * int(s) + dec_text(int(n))
+                    if a != '-':
+                        t += ': ' + dec_text(int(a))
+                    if d != '-':
+                        t += '=' + dec_text(int(d))
+                    items.append(t)
+        return ('ok', ids(toks[1]), anns, ids(toks[3]), ids(toks[4]), ', '.join(items))
+    return _parse1(req, ml)
